@@ -18,7 +18,7 @@ handler ops : ['sleep', d] ['yield', k] ['disp', bus, type, mode, flags] ['await
               ['readbus'] ;  type = int | 'n' (= E[depth+1]) ; mode = 'await' | 'later' | 'ff'
 actor ops   : ['disp', bus, type, flags] ['redisp', root, bus] ['await', root] ['awaitdesc', root, k]
               ['sleep', d] ['yield', k] ['idle', bus, timeout] ['stop', bus, timeout, clear]
-              ['acc', root, name, raise_if_any, raise_if_none] ['status', root] ['burst', bus, type, n, flags]
+              ['acc', root, name, raise_if_any, raise_if_none] ['status', root] ['burst', bus, type, n, flags] ['expect', bus, type, timeout]
 """
 from __future__ import annotations
 
@@ -855,6 +855,24 @@ async def run_actor(w: World, ai: int, ops: list):
                 exc = type(ex).__name__
             st['blocked'] = None
             w.rec('a-idle-end', actor=ai, bus=bus.name, timeout=op[2], exc=exc, pending=w.bus_unfinished(op[1]))
+        elif k == 'expect':
+            # ['expect', bus, type, timeout]: ordinary code waits for the next event of a type; the temporary subscription it makes may be
+            # added and removed while events of that type are in flight
+            bus = w.buses[op[1]]
+            w.rec('a-expect-begin', actor=ai, bus=bus.name, typ=int(op[2]), timeout=op[3])
+            st['blocked'] = ('expect', bus.name)
+            got = None
+            try:
+                got = await bus.expect(ET[int(op[2])], timeout=op[3])
+                outc = 'got'
+            except asyncio.CancelledError:
+                raise
+            except TimeoutError:
+                outc = 'timeout'
+            except BaseException as ex:  # noqa
+                outc = type(ex).__name__
+            st['blocked'] = None
+            w.rec('a-expect-end', actor=ai, bus=bus.name, out=outc, ev=getattr(got, 'tag', None))
         elif k == 'stop':
             bus = w.buses[op[1]]
             w.rec('a-stop-begin', actor=ai, bus=bus.name, timeout=op[2], clear=op[3], started=w.bus_started(op[1]), busy=w.bus_busy(op[1]), iters=loop.iterations)
@@ -962,6 +980,8 @@ def stall_limit(sc) -> float:
                 scan(op[1])
             elif op[0] in ('idle', 'stop'):
                 scan(op[2])
+            elif op[0] == 'expect':
+                scan(op[3])
             elif op[0] in ('disp', 'burst'):
                 fl = op[3] if op[0] == 'disp' and len(op) > 3 else (op[4] if op[0] == 'burst' and len(op) > 4 else None)
                 if fl:
